@@ -43,7 +43,10 @@ class TagHooks(LineHooks):
                     m = o.cls.find_method(a)
                     if m is not None:
                         return ("bound", m, o)
-            return args[2] if len(args) > 2 else None
+                return args[2] if len(args) > 2 else None
+            # anything else (concrete values, rule-supplied stand-ins): the
+            # evaluator's own getattr
+            return NotImplemented
         return super().function(ev, node, args, kwargs)
 
 
